@@ -1642,3 +1642,135 @@ Proof.
     rewrite (stmts_conv_some F body Hb _ _ _ Ec). exact H.
   - exact H.
 Qed.
+
+(* ---------- functions, handlers, programs ---------- *)
+(* the structural checks are Static's own (binders, parameters, signatures, break inside a loop, every
+   path of a typed function returns); only the typing of the contexts is replaced by the specification's *)
+Definition swt_func (F : list funcdef) (globals : sframe) (fd : funcdef) : bool :=
+  let ps := fn_params fd in
+  let vp := match fn_variadic fd with Some (n, t) => [(n, TArr t)] | None => [] end in
+  forallb param_ok (ps ++ vp) && names_distinct (map fst (ps ++ vp))
+  && (match fn_variadic fd with Some _ => match ps with [] => true | _ => false end | None => true end)
+  && (is_none (fn_ret fd) || ty_decl (fn_ret fd))
+  && negb (is_some (builtin_sig (fn_name fd)))
+  && is_some (swt_stmts F (Some (fn_ret fd)) false [params_frame (ps ++ vp); globals] (fn_body fd))
+  && (is_none (fn_ret fd) || always_returns (fn_body fd)).
+
+Definition swt_handler (F : list funcdef) (globals : sframe) (h : handler) : bool :=
+  match assoc_str (h_name h) event_sigs with
+  | None => false
+  | Some ts =>
+      (match h_params h with [] => true | ps => tys_eqb (map snd ps) ts end)
+      && forallb param_ok (h_params h) && names_distinct (map fst (h_params h))
+      && is_some (swt_stmts F (Some TNone) false [params_frame (h_params h); globals] (h_body h))
+  end.
+
+Definition swt_top (P : program) : option sframe :=
+  match swt_stmts (p_funcs P) None false [global_frame0] (p_stmts P) with
+  | Some [g] => Some g
+  | _ => None
+  end.
+
+Definition swt_program (P : program) : bool :=
+  match swt_top P with
+  | Some g => forallb (swt_func (p_funcs P) g) (p_funcs P) && forallb (swt_handler (p_funcs P) g) (p_handlers P)
+  | None => false
+  end.
+
+Lemma all_stmt_conv F l : Forall (stmt_conv F) l.
+Proof. apply Forall_forall. intros s _. apply swt_stmt_wt. Qed.
+
+Lemma swt_func_wt F g fd : swt_func F g fd = true -> wt_func F g fd = true.
+Proof.
+  unfold swt_func, wt_func. intros H.
+  apply andb_true_iff in H as [H H7]. apply andb_true_iff in H as [H H6].
+  rewrite H, H7. rewrite (stmts_conv_some F _ (all_stmt_conv F _) _ _ _ H6). reflexivity.
+Qed.
+
+Lemma swt_handler_wt F g h : swt_handler F g h = true -> wt_handler F g h = true.
+Proof.
+  unfold swt_handler, wt_handler. destruct (assoc_str (h_name h) event_sigs); [|auto]. intros H.
+  apply andb_true_iff in H as [H H4].
+  rewrite H. rewrite (stmts_conv_some F _ (all_stmt_conv F _) _ _ _ H4). reflexivity.
+Qed.
+
+Lemma forallb_impl {A} (f g : A -> bool) l : (forall x, f x = true -> g x = true) -> forallb f l = true -> forallb g l = true.
+Proof. intros Hfg. induction l; simpl; auto. intros H. apply andb_true_iff in H as [H1 H2]. rewrite (Hfg _ H1), (IHl H2). reflexivity. Qed.
+
+(* a program all of whose contexts the specification's rules accept (on the tree annotated with the
+   specification's types) and that passes the structural checks is accepted by Static's checker *)
+Theorem swt_program_wt P : swt_program P = true -> wt_program P = true.
+Proof.
+  unfold swt_program, wt_program, swt_top, wt_top. intros H.
+  destruct (swt_stmts (p_funcs P) None false [global_frame0] (p_stmts P)) as [G'|] eqn:E; [|discriminate].
+  rewrite (stmts_conv _ _ (all_stmt_conv _ _) _ _ _ _ E).
+  destruct G' as [|g [|? ?]]; try discriminate.
+  apply andb_true_iff in H as [H1 H2].
+  rewrite (forallb_impl _ _ _ (swt_func_wt _ _) H1), (forallb_impl _ _ _ (swt_handler_wt _ _) H2). reflexivity.
+Qed.
+
+(* ---------- every context condition of [swt_stmt] is a case the SPECIFICATION accepts ---------- *)
+Lemma defaults_closed s : S.closed s = true -> Sp.defaults s = s.
+Proof. induction s; simpl; intros H; try reflexivity; try discriminate; f_equal; auto. Qed.
+
+(* inferred declaration  x := e  *)
+Lemma decl_spec_accepts F G t e : sis F G e t = true -> ty_decl t = true ->
+  exists e' st, erase G e = Some e' /\ ty_of st = t /\ Sp.spec_check S.CDecl e' = Sp.SAccept st st.
+Proof.
+  unfold sis. intros H Hd. apply andb_true_iff in H as [_ H].
+  destruct (sty_is_inv _ _ _ H) as (e' & k & s & He & Htc & Ht). exists e', s. split; [exact He|]. split; [auto|].
+  unfold Sp.spec_check. rewrite Htc. rewrite defaults_closed; [reflexivity|].
+  rewrite closed_proper, <- Ht. unfold ty_decl in Hd. apply andb_true_iff in Hd as [Hd _]. exact Hd.
+Qed.
+
+(* condition of if / while *)
+Lemma cond_spec_accepts F G c : sis F G c TBool = true ->
+  exists e', erase G c = Some e' /\ Sp.spec_check S.CCond e' = Sp.SAccept S.SBool S.SBool.
+Proof.
+  unfold sis. intros H. apply andb_true_iff in H as [_ H].
+  destruct (sty_is_inv _ _ _ H) as (e' & k & s & He & Htc & Ht). exists e'. split; [exact He|].
+  unfold Sp.spec_check. rewrite Htc. destruct s; try discriminate. reflexivity.
+Qed.
+
+(* range operand *)
+Lemma range_spec_accepts G y st t : spec_ty_of G y = Some st -> srange st = Some t ->
+  exists e' st', erase G y = Some e' /\ ty_of st' = t /\ Sp.spec_check S.CRange e' = Sp.SAccept st' st'.
+Proof.
+  unfold spec_ty_of, srange. destruct (erase G y) as [e'|]; [|discriminate].
+  destruct (Sp.spec_tc e') as [[k s]|] eqn:Htc; [|discriminate]. cbn [option_map snd]. intros Hs. inversion Hs; subst s.
+  destruct (range_guard st); [|discriminate]. rewrite <- (spec_check_range_tc e' k st Htc).
+  destruct (Sp.spec_check S.CRange e') as [a b|] eqn:Ec; [|discriminate]. intros Ht. inversion Ht; subst.
+  exists e', a. split; [reflexivity|]. split; [reflexivity|].
+  rewrite Ec. unfold Sp.spec_check in Ec. rewrite Htc in Ec. destruct st; inversion Ec; reflexivity.
+Qed.
+
+(* assignment to a target chain  v<steps> = e  *)
+Lemma assign_to_spec_accepts F G tg st e :
+  target_sty G tg = Some st -> S.closed st = true -> sval F G (ty_of st) e = true ->
+  exists root steps e', target_of G tg = Some (root, steps) /\ erase G e = Some e' /\
+    exists shown, Sp.spec_check (S.CAssignTo root steps) e' = Sp.SAccept st shown.
+Proof.
+  unfold target_sty. destruct (target_of G tg) as [[root steps]|]; [|discriminate].
+  destruct (Sp.spec_steps steps) as [ks|] eqn:Ek; [|discriminate]. intros Hc Hcl Hv.
+  destruct (sval_spec_accepts F G (ty_of st) e st Hv (sty_of_ty_of st) Hcl) as (e' & He & shown & Hacc).
+  exists root, steps, e'. split; [reflexivity|]. split; [exact He|]. exists shown.
+  unfold Sp.spec_check in *. rewrite Ek, Hc. exact Hacc.
+Qed.
+
+(* arguments of generic built-in parameters *)
+Lemma generic_arr_spec_accepts F G a : arg_ann (ann_ok F G) G TGenArr a = true ->
+  exists e' st, erase G a = Some e' /\ Sp.spec_check S.CGenericArr e' = Sp.SAccept st st.
+Proof.
+  unfold arg_ann, spec_ty_of. intros H. apply andb_true_iff in H as [_ H].
+  destruct (erase G a) as [e'|]; [|discriminate]. destruct (Sp.spec_tc e') as [[k s]|] eqn:Htc; [|discriminate].
+  simpl in H. apply andb_true_iff in H as [H _]. exists e', s. split; [reflexivity|].
+  unfold Sp.spec_check. rewrite Htc, H. reflexivity.
+Qed.
+Lemma generic_map_spec_accepts F G a : arg_ann (ann_ok F G) G TGenMap a = true ->
+  exists e' st, erase G a = Some e' /\ Sp.spec_check S.CGenericMap e' = Sp.SAccept st st.
+Proof.
+  unfold arg_ann, spec_ty_of. intros H. apply andb_true_iff in H as [_ H].
+  destruct (erase G a) as [e'|]; [|discriminate]. destruct (Sp.spec_tc e') as [[k s]|] eqn:Htc; [|discriminate].
+  simpl in H. apply andb_true_iff in H as [H _]. exists e', s. split; [reflexivity|].
+  unfold Sp.spec_check. rewrite Htc, H. reflexivity.
+Qed.
